@@ -229,45 +229,45 @@ func (t *TabularGraph) GetVertex(key string, load bool) *gdbi.Vertex {
 }
 
 func (t *TabularGraph) GetEdge(key string, load bool) *gdbi.Edge {
-	src, dst, label, err := t.ParseEdge(key)
-	if err != nil {
-		return nil
-	}
 	for _, source := range t.edgeSourceOrder {
 		edgeList := t.outEdges[source]
 		for _, edge := range edgeList {
-			if edge.config.Label == label {
-				if strings.HasPrefix(src, edge.fromVertex.prefix) && strings.HasPrefix(dst, edge.toVertex.prefix) {
-					srcID := strings.TrimPrefix(src, edge.fromVertex.prefix)
-					dstID := strings.TrimPrefix(dst, edge.toVertex.prefix)
+			// row ids, prefixes and labels may contain '-': match the id against this
+			// edge source's own prefixes and label instead of splitting it at '-'
+			for _, ends := range edge.SplitID(key) {
+				srcID, dstID := ends[0], ends[1]
 
-					res, err := t.client.GetRowsByField(context.Background(),
-						edge.config.Data.Source,
-						edge.config.Data.Collection,
-						edge.config.Data.FromField, srcID)
+				res, err := t.client.GetRowsByField(context.Background(),
+					edge.config.Data.Source,
+					edge.config.Data.Collection,
+					edge.config.Data.FromField, srcID)
 
-					if err == nil {
-						var out *gdbi.Edge
-						for row := range res {
-							data := row.Data.AsMap()
-							if rowdDstStr, err := getFieldString(data, edge.config.Data.ToField); err == nil {
-								if dstID == rowdDstStr {
-									o := gdbi.Edge{
-										ID:     edge.GenID(srcID, dstID), //edge.prefix + row.Id,
-										To:     edge.config.To + dstID,
-										From:   edge.config.From + srcID,
-										Label:  edge.config.Label,
-										Data:   row.Data.AsMap(),
-										Loaded: true,
-									}
-									out = &o
+				if err == nil {
+					var out *gdbi.Edge
+					for row := range res {
+						data := row.Data.AsMap()
+						if rowdDstStr, err := getFieldString(data, edge.config.Data.ToField); err == nil {
+							if dstID == rowdDstStr {
+								o := gdbi.Edge{
+									ID:     edge.GenID(srcID, dstID), //edge.prefix + row.Id,
+									To:     edge.config.To + dstID,
+									From:   edge.config.From + srcID,
+									Label:  edge.config.Label,
+									Data:   row.Data.AsMap(),
+									Loaded: true,
 								}
+								out = &o
 							}
 						}
+					}
+					if out != nil {
 						return out
 					}
-					log.Errorf("Row Error: %s", err)
+					// no such row in this link table: another reading of the id or
+					// another edge mapping may still have it
+					continue
 				}
+				log.Errorf("Row Error: %s", err)
 			}
 		}
 	}
